@@ -647,6 +647,8 @@ class _Pending:
         self.items = []
     def check(self, cond, rule, inst, **kw):
         self.items.append((bool(cond), rule, inst, kw)); return cond
+    def anchor(self, cond, rule, inst, **kw):
+        return self.check(cond, rule, inst, **kw)
     def violation(self, rule, inst, **kw):
         self.items.append((False, rule, inst, kw))
     def ok(self, rule, inst, **kw):
